@@ -399,6 +399,9 @@ pub struct Sim {
     pub store_log: bool,
     pub n_events: u64,
     pub cap_hit: bool,
+    /// per simulated thread: the next scheduling point is logged (set at every iteration
+    /// record, so the log shows whether numerical work followed a boundary)
+    pub log_next_yield: [bool; 32],
 }
 
 impl Sim {
@@ -420,6 +423,7 @@ impl Sim {
             store_log: true,
             n_events: 0,
             cap_hit: false,
+            log_next_yield: [false; 32],
         }
     }
     pub fn push(&mut self, th: u8, kind: EvKind) {
@@ -550,8 +554,21 @@ fn event_hook(ev: Label) {
         }
     }
     match ev {
-        // pure scheduling point: not logged (a hand-off, if any, is)
-        Label::Yield => yield_point(),
+        // pure scheduling point: only the first one after an iteration record is logged
+        // (a hand-off, if any, always is)
+        Label::Yield => {
+            with_sim(|s| {
+                if s.log_next_yield[th % 32] {
+                    s.log_next_yield[th % 32] = false;
+                    s.push(th as u8, EvKind::Label(ev));
+                }
+            });
+            yield_point()
+        }
+        Label::Iteration(_) => with_sim(|s| {
+            s.log_next_yield[th % 32] = true;
+            s.push(th as u8, EvKind::Label(ev));
+        }),
         Label::InfGet | Label::InfSet | Label::InfDefault => {
             // the accessor is a yield point: another simulated thread may run
             // between the call and the atomic access it announces
